@@ -69,6 +69,7 @@ DEFAULT_KNOBS = dict(
     p_attach_style=0.0,
     p_awaitable=0.0,
     p_prop_guard=0.0,
+    p_guard_any_value=0.0,
 )
 
 
@@ -609,6 +610,7 @@ def gen_scenario(rnd, k, profile="generic"):
     if is_async:
         ops[0]["rtc"] = True
     beh, gv = gen_behaviours(rnd, prog, k, len(ops), senders)
-    sc = {"profile": profile, "programs": [prog], "beh": beh, "gv": gv, "ops": ops,
+    gv_kind = {c: "any" for c in sorted(gv) if rnd.random() < k["p_guard_any_value"]}
+    sc = {"profile": profile, "programs": [prog], "beh": beh, "gv": gv, "gv_kind": gv_kind, "ops": ops,
           "driver": rnd.choice(k["drivers"]), "perm_seed": rnd.randrange(1 << 30)}
     return sc
